@@ -2,6 +2,7 @@ package main
 
 import (
 	"fmt"
+	"go/ast"
 	"regexp"
 	"go/types"
 	"sort"
@@ -11,7 +12,7 @@ import (
 )
 
 func (e *Engine) newFV(fn *ssa.Function, con *Contract, mode Mode) *FV {
-	v := &FV{eng: e, top: fn, con: con, mode: mode, preSeen: map[string]bool{}, arrays: map[string]string{}, assumed: map[string]bool{}, trusted: map[string]bool{},
+	v := &FV{eng: e, top: fn, con: con, mode: mode, preSeen: map[string]bool{}, arrays: map[string]string{}, refArrays: map[string]bool{}, assumed: map[string]bool{}, trusted: map[string]bool{},
 		oblNames: map[string]int{}, strLits: map[string]Term{}, kindCount: map[string]int{}}
 	v.n0 = "N0!"
 	v.pre("n0", "(declare-const N0! Int)")
@@ -91,7 +92,8 @@ func (e *Engine) VerifyFunction(fn *ssa.Function, con *Contract) (v *FV) {
 	fr := v.newFrame(fn, 0)
 	fr.isTop = true
 	fr.con = con
-	st := &State{reach: "true", snap: &Snapshot{ep: v.newEpoch(0), over: map[string]Term{}}, env: map[string]TV{}, addr: map[string]TV{}}
+	st := &State{reach: "true", snap: &Snapshot{ep: v.newEpoch(0), over: map[string]Term{}}, env: map[string]TV{}, addr: map[string]TV{}, held: map[string]string{}}
+	st.snap.ep.initial = true
 	// parameters
 	for i, p := range fn.Params {
 		s := v.sortOf(p.Type())
@@ -124,6 +126,16 @@ func (e *Engine) VerifyFunction(fn *ssa.Function, con *Contract) (v *FV) {
 		name := fmt.Sprintf("fv_%s", mangle(fvv.Name()))
 		v.emit(fmt.Sprintf("(declare-const %s %s)", name, s))
 		fr.vals[fvv] = TV{T: name, Ty: fvv.Type(), Sort: s}
+	}
+	if fn.Signature.Recv() != nil && len(fn.Params) > 0 {
+		for _, h := range con.Holds {
+			mode := "w"
+			if strings.HasSuffix(h, ":r") {
+				mode = "r"
+				h = strings.TrimSuffix(h, ":r")
+			}
+			st.held[typeKey(fn.Signature.Recv().Type())+"."+h+"@"+fr.vals[fn.Params[0]].T] = mode
+		}
 	}
 	fr.oldSnap = st.snap.clone()
 	for _, gi := range e.db.GlobalInvs {
@@ -165,6 +177,11 @@ func (e *Engine) VerifyFunction(fn *ssa.Function, con *Contract) (v *FV) {
 		penv := &ExprEnv{v: v, vars: vars, snap: ex.st.snap, old: fr.oldSnap, reach: ex.st.reach, what: "ensures of " + con.Key}
 		if fn.Pkg != nil {
 			penv.pkg = fn.Pkg.Pkg
+		}
+		for _, g := range con.GhostSet {
+			if err := v.ghostAssign(penv, ex.st, g.Text); err != nil {
+				v.specError(g, err)
+			}
 		}
 		for i, c := range con.Ensures {
 			t, err := penv.EvalBool(c.Text)
@@ -235,6 +252,9 @@ func (v *FV) frameCheck(fr *Frame, st *State, con *Contract, vars map[string]TV,
 	sort.Strings(names)
 	k := v.declare("frame_k", "Int")
 	for _, a := range names {
+		if strings.HasPrefix(a, "RV_") {
+			continue // ghost iteration state of range loops
+		}
 		// locals allocated by the function itself are > N0 and invisible to the caller
 		now := v.heapGet(st.snap, a)
 		was := v.heapGet(fr.oldSnap, a)
@@ -387,7 +407,7 @@ func (e *Engine) VerifyRefinement(fn *ssa.Function, impl, iface *Contract, iface
 		}
 	}()
 	v.assertAxioms(nil)
-	st := &State{reach: "true", snap: &Snapshot{ep: v.newEpoch(0), over: map[string]Term{}}, env: map[string]TV{}, addr: map[string]TV{}}
+	st := &State{reach: "true", snap: &Snapshot{ep: v.newEpoch(0), over: map[string]Term{}}, env: map[string]TV{}, addr: map[string]TV{}, held: map[string]string{}}
 	vars := map[string]TV{}
 	for i, p := range fn.Params {
 		s := v.sortOf(p.Type())
@@ -507,4 +527,46 @@ func ifaceMethod(t types.Type, name string) (*types.Func, bool) {
 		}
 	}
 	return nil, false
+}
+
+// ghostAssign performs "x.f = expr" on a ghost field at a function exit.
+func (v *FV) ghostAssign(env *ExprEnv, st *State, text string) (err error) {
+	defer func() {
+		if r := recover(); r != nil {
+			if ee, ok := r.(*exprError); ok {
+				err = fmt.Errorf("ghost_assign %s: %s", text, ee.msg)
+				return
+			}
+			panic(r)
+		}
+	}()
+	i := strings.Index(text, "=")
+	if i < 0 {
+		return fmt.Errorf("ghost_assign needs 'x.f = expr'")
+	}
+	lhs, rhs := strings.TrimSpace(text[:i]), strings.TrimSpace(text[i+1:])
+	le, perr := parseContractExpr(lhs)
+	if perr != nil {
+		return perr
+	}
+	sel, ok := le.(*ast.SelectorExpr)
+	if !ok {
+		return fmt.Errorf("ghost_assign: left side must be x.f")
+	}
+	env.snap = st.snap
+	base := env.eval(sel.X)
+	g := v.findGhost(types.Unalias(base.Ty), sel.Sel.Name)
+	if g == nil {
+		return fmt.Errorf("ghost_assign: %s is not a ghost field", sel.Sel.Name)
+	}
+	gty := v.parseType(g.Type, v.pkgOf(g.Pkg))
+	re, perr := parseContractExpr(rhs)
+	if perr != nil {
+		return perr
+	}
+	val := env.coerce(env.eval(re), gty, v.ghostSort(gty))
+	arr := "G_" + mangle(shortPkg(g.Owner)+"_"+g.Name)
+	v.regArray(arr, fmt.Sprintf("(Array Int %s)", v.ghostSort(gty)))
+	v.heapSet(st.snap, arr, fmt.Sprintf("(store %s %s %s)", v.heapGet(st.snap, arr), base.T, val.T))
+	return nil
 }
